@@ -428,9 +428,9 @@ harnesses! {
     c15_clone_from: [1] [2] [3];
     c06_big: [3];
     c16_from_iter: [0, 1] [1, 2] [2, 3] [3, 4] [2, 4];
-    c16_from_array: [0] [1] [2] [3];
+    c16_from_array: [0] [1] [2] [3] [4];
     c16_set_from: [1, 2] [2, 3] [3, 4];
-    c16_set_from_array: [0] [1] [2] [3];
+    c16_set_from_array: [0] [1] [2] [3] [4];
     c18_insert_unchecked: [1] [2] [3];
     c18_disjoint_unchecked: [2, 0] [1, 1] [2, 2] [3, 2] [2, 3] [3, 3];
     @deep
@@ -441,9 +441,9 @@ harnesses! {
     c15_clone_nodrop: [4] [5];
     c15_clone_from: [4];
     c16_from_iter: [3, 5] [4, 5];
-    c16_from_array: [4] [5];
+    c16_from_array: [5];
     c16_set_from: [4, 5];
-    c16_set_from_array: [4] [5];
+    c16_set_from_array: [5];
     c18_insert_unchecked: [4] [5];
     c18_disjoint_unchecked: [4, 3] [3, 4] [4, 4];
 }
